@@ -69,6 +69,7 @@ Proof.
 Qed.
 Lemma split_app_dot : forall a b, nodot a = true -> split_dots (a ++ 46 :: b) = a :: split_dots b.
 Proof.
+  change 46 with jwt_sep.
   induction a as [|c t IH]; intros b H; cbn in *; [reflexivity|].
   apply andb_true_iff in H as [Hc Ht]. apply negb_true_iff in Hc. rewrite Hc, (IH b Ht). reflexivity.
 Qed.
